@@ -23,6 +23,14 @@ def flag_word(flags):
     return w
 
 
+CURVE_B = {
+    'ECDSAP256SHA256': (2 ** 256 - 2 ** 224 + 2 ** 192 + 2 ** 96 - 1,
+                        0x5ac635d8aa3a93e7b3ebbd55769886bc651d06b0cc53b0f63bce3c3e27d2604b),
+    'ECDSAP384SHA384': (2 ** 384 - 2 ** 128 - 2 ** 96 + 2 ** 32 - 1,
+                        0xb3312fa7e23ee7e4988e056be3f82d19181d9c6efe8141120314088f5013875ac656398d8a2ed19d2a85c8edd3ec2aef),
+}
+
+
 def check_dnskey_wire(acc, rdata, label, extra=None):
     from cryptoparser.dnsrec.record import DnsRecordDnskey
     acc.counters['transitions'] = acc.counters.get('transitions', 0) + 2
@@ -32,6 +40,11 @@ def check_dnskey_wire(acc, rdata, label, extra=None):
     try:
         o = DnsRecordDnskey.parse_exact_size(rdata)
     except classes.documented_errors() as e:
+        if extra and extra.get('not_a_curve_point'):
+            # a coordinate pair with a zero that is not on the curve is outside RFC 6605's domain ("Q ... represents
+            # the uncompressed form of a curve point"); rejecting it with a documented error is allowed
+            acc.count('zero_coordinate_non_points_rejected')
+            return
         acc.violation('dnskey:rejected:%s:%s' % (label, type(e).__name__), 'conformant DNSKEY RDATA (%s) rejected: %s'
                       % (label, str(e)[:60]), w)
         return
@@ -109,7 +122,22 @@ def _dnskey_worker(args):
                 continue
             for x, y in itertools.product((0, 1, (1 << (8 * size)) - 1, 1 << (8 * size - 1), 1 << 8), repeat=2):
                 if take():
+                    check_dnskey_wire(acc, ref.dnskey(0x0101, 3, by[nm], ref.key_ecdsa(x, y, size)), nm.lower(),
+                                      {'not_a_curve_point': True} if 0 in (x, y) else None)
+            # both coordinates starting with one / two zero octets (fixed width must survive), and the two genuine
+            # curve points with x = 0: (0, +-sqrt(b)) - FIPS 186-4 D.1.2.3 / D.1.2.4 parameters, p = 3 mod 4
+            top = 1 << (8 * (size - 1) - 1)
+            for x, y in ((top | 5, top | 7), (top >> 8 | 5, top | 7), (top | 5, top >> 8 | 7), (top >> 8, top >> 16)):
+                if take():
                     check_dnskey_wire(acc, ref.dnskey(0x0101, 3, by[nm], ref.key_ecdsa(x, y, size)), nm.lower())
+            if nm in CURVE_B:
+                prime, b = CURVE_B[nm]
+                root = pow(b, (prime + 1) // 4, prime)
+                assert root * root % prime == b
+                for y in (root, prime - root):
+                    if take():
+                        check_dnskey_wire(acc, ref.dnskey(0x0101, 3, by[nm], ref.key_ecdsa(0, y, size)),
+                                          nm.lower() + ':x=0')
         for nm, size in (('ED25519', 32), ('ED448', 57)):
             if nm not in by:
                 continue
